@@ -19,7 +19,7 @@ shutil.copytree(f"{out}/demo_{x}", f"{dst}/demo")
 meta = json.load(open(f"{out}/meta_{x}.json"))
 base = re.search(r"== base (\S+)", log).group(1)
 meta2 = {
-  "id": f"{pid}{as_x}", "property": pid, "round": (int(suffix[2:]) if suffix.startswith(".r") else 1), "summary": meta.get("summary"), "files": meta.get("files"),
+  "id": f"{pid}{as_x}", "property": pid, "round": (int(os.environ["ROUND"]) if os.environ.get("ROUND") else (int(suffix[2:]) if suffix.startswith(".r") else 1)), "summary": meta.get("summary"), "files": meta.get("files"),
   "needs_to_manifest": meta.get("needs"), "demo_path": meta.get("demo_path"), "demo_cmd": meta.get("demo_cmd"),
   "expected_with_patch": meta.get("expected_with_patch"),
   "author": "independent sub-agent given only the property text and a scratch worktree",
